@@ -84,7 +84,46 @@ func c18Validate(c *Ctx) {
 		return
 	}
 	// R3: in closures of Validate, every allocation of gqlerror.Error has its Rule field stored from <captured Rule>.Name
+	// — in the closure itself, or in a function the closure hands the name to (errs.add(rule.Name, options...))
 	nAlloc := 0
+	checkTag := func(cl *ssa.Function, val ssa.Value, pos token.Pos) {
+		// value must be load of FieldAddr(<freevar of type *Rule>, Name)
+		ld, ok := stripConv(val).(*ssa.UnOp)
+		var fv *ssa.FreeVar
+		if ok {
+			if fa, ok := ld.X.(*ssa.FieldAddr); ok {
+				if _, n, _, _ := fieldOf(fa); n == "Name" && namedOf(fa.X.Type()) == ruleT {
+					fv, _ = fa.X.(*ssa.FreeVar)
+				}
+			}
+		}
+		if fv == nil {
+			r3.Fail(pos, p.FuncName(cl), "Rule source", "the Rule tag is not the Name of the captured rule value")
+			return
+		}
+		// the captured variable must be allocated inside the loop over the rules (one copy per iteration)
+		idx := -1
+		for i, f := range cl.FreeVars {
+			if f == fv {
+				idx = i
+			}
+		}
+		okBind := false
+		allInstrs(fn, func(in2 ssa.Instruction) {
+			mc, ok := in2.(*ssa.MakeClosure)
+			if !ok || mc.Fn != ssa.Value(cl) {
+				return
+			}
+			if a, ok := mc.Bindings[idx].(*ssa.Alloc); ok && inCycle(a.Block()) {
+				okBind = true
+			}
+		})
+		if !okBind {
+			r3.Fail(pos, p.FuncName(cl), "shared rule variable", "the rule variable captured by the addError closure is not a per-iteration copy: every closure would see the last rule, and errors would carry the wrong Rule")
+			return
+		}
+		r3.OK(p.FuncName(cl)+" Error.Rule", "= captured per-iteration rule.Name")
+	}
 	for _, cl := range withClosures(fn) {
 		if cl == fn {
 			continue
@@ -114,43 +153,23 @@ func c18Validate(c *Ctx) {
 				r3.Fail(al.Pos(), p.FuncName(cl), "Error without Rule", "an error is created in Validate's addError closure without setting its Rule field")
 				return
 			}
-			// value must be load of FieldAddr(<freevar of type *Rule>, Name)
-			ld, ok := ruleStore.Val.(*ssa.UnOp)
-			var fv *ssa.FreeVar
-			if ok {
-				if fa, ok := ld.X.(*ssa.FieldAddr); ok {
-					if _, n, _, _ := fieldOf(fa); n == "Name" && namedOf(fa.X.Type()) == ruleT {
-						fv, _ = fa.X.(*ssa.FreeVar)
-					}
-				}
-			}
-			if fv == nil {
-				r3.Fail(ruleStore.Pos(), p.FuncName(cl), "Rule source", "the Rule tag is not the Name of the captured rule value")
+			checkTag(cl, ruleStore.Val, ruleStore.Pos())
+		})
+		allInstrs(cl, func(in ssa.Instruction) {
+			call, ok := in.(*ssa.Call)
+			if !ok {
 				return
 			}
-			// the captured variable must be allocated inside the loop over the rules (one copy per iteration)
-			idx := -1
-			for i, f := range cl.FreeVars {
-				if f == fv {
-					idx = i
-				}
-			}
-			okBind := false
-			allInstrs(fn, func(in2 ssa.Instruction) {
-				mc, ok := in2.(*ssa.MakeClosure)
-				if !ok || mc.Fn != ssa.Value(cl) {
-					return
-				}
-				if a, ok := mc.Bindings[idx].(*ssa.Alloc); ok && inCycle(a.Block()) {
-					// and it is passed to that same rule's RuleFunc: the call in the same block uses the closure
-					okBind = true
-				}
-			})
-			if !okBind {
-				r3.Fail(ruleStore.Pos(), p.FuncName(cl), "shared rule variable", "the rule variable captured by the addError closure is not a per-iteration copy: every closure would see the last rule, and errors would carry the wrong Rule")
+			h := call.Call.StaticCallee()
+			if h == nil || !p.inModule(h) || len(h.Blocks) == 0 {
 				return
 			}
-			r3.OK(p.FuncName(cl)+" Error.Rule", "= captured per-iteration rule.Name")
+			j := taggingParam(h, errT)
+			if j < 0 || j >= len(call.Call.Args) {
+				return
+			}
+			nAlloc++
+			checkTag(cl, call.Call.Args[j], call.Pos())
 		})
 	}
 	// the closure is the one handed to rule.RuleFunc of the same iteration variable
@@ -924,6 +943,22 @@ func treeWrites(c *Ctx, e *effects, scope map[*ssa.Function]bool, r *RuleResult,
 // taggingParam: mk returns a closure that allocates an Error whose Rule field is set from mk's parameter #j
 // (captured by the closure); returns j or -1.
 func taggingParam(mk *ssa.Function, errT *types.Named) int {
+	// the function itself creates the error and tags it with one of its parameters
+	direct := -1
+	allInstrs(mk, func(in ssa.Instruction) {
+		al, ok := in.(*ssa.Alloc)
+		if !ok || namedOf(al.Type()) != errT {
+			return
+		}
+		for _, v := range fieldStores(al, "Rule") {
+			if prm, ok := stripConv(v).(*ssa.Parameter); ok {
+				direct = paramIndex(mk, prm)
+			}
+		}
+	})
+	if direct >= 0 {
+		return direct
+	}
 	for _, ret := range returnsOf(mk) {
 		for _, rv := range ret.Results {
 			mc, ok := stripConv(rv).(*ssa.MakeClosure)
